@@ -74,7 +74,7 @@ MISSED_AT_FIRST = {
  "C18-9": "the stub converted bytes to UTF-16 units one to one, so bytes and units never differed; real UTF-8 decoding in the stub, two-byte sequences in the enumerations, WinCmdLine decodes likewise",
  "C19-9": "the mock never answered 'interrupted'; -4 added to the C return values (a wrapper that retries shows as a different result)",
  "C19-10": "conversions were always used at once; a reproc::arguments held while its source container is overwritten and cleared added",
- "C11-10": "NOT CAUGHT: the change lists /proc/self/fd with the raw getdents64 system call; syscall() is outside the seam (the check reports an infrastructure error, exit 2, no verdict) and no configuration has the > 168 open descriptors it needs",
+ "C11-10": "the change lists /proc/self/fd with open + the raw getdents64 system call; syscall() was outside the seam (infrastructure error, no verdict) and no configuration had the > 168 open descriptors it needs; open/getdents64 on the descriptor directory are now emulated and the wiring family has a caller with 230 further inheritable descriptors",
  "C18-10": "NOT CAUGHT: needs another thread changing the parent's environment block between two snapshots inside one start; the threaded mode of the Windows driver gives every thread its own parent block",
 }
 
